@@ -17,7 +17,7 @@ class Variation:
     contents are symbolic)."""
 
     def __init__(self, present=None, default_present="all", intclass=1, lens=None, text="utf8",
-                 choose=None, seed=0, symbool=False, boolflip=0):
+                 choose=None, seed=0, symbool=False, boolflip=0, maxlen=None):
         self.present = present or {}          # struct name -> iterable of optional field names
         self.default_present = default_present  # "all" | "none"
         self.intclass = intclass              # 0: small concrete ints, 1/2/4/8: symbolic in class
@@ -25,6 +25,7 @@ class Variation:
         self.text = text                      # "ascii" | "utf8"
         self.choose = choose or {}            # path -> explicit choice (enum variant, small int ...)
         self.seed = seed
+        self.maxlen = maxlen
         self.symbool = symbool                # True only for encode-side harnesses
         self.boolflip = boolflip              # flips the alternating true/false assignment
 
@@ -34,7 +35,9 @@ class Variation:
         return self.default_present == "all"
 
     def length(self, path, default):
-        return self.lens.get(path, default)
+        if path in self.lens:
+            return self.lens[path]
+        return min(default, self.maxlen) if self.maxlen is not None else default
 
     def choice(self, path, default):
         return self.choose.get(path, default)
@@ -258,7 +261,8 @@ class TUnitMap(T):
         return []
 
     def build(self, ctx, m):
-        return "%s {}" % self.rust
+        # #[non_exhaustive]: obtainable from outside the crate only by decoding the empty map
+        return "cbor_deserialize::<%s>(&[0xa0u8]).ok().unwrap()" % self.rust
 
 
 # --------------------------------------------------------------------------- enumerations
@@ -410,6 +414,14 @@ class TStruct(T):
                 else:
                     parts.append("%s: Some(%s)" % (f.rust, f.ty.build(ctx, mv)))
             ctx.h.add("let %s = %s { %s };" % (v, self.rust, ", ".join(parts)))
+            return v
+        if self.ctor[0] == "decode":
+            # non_exhaustive, no Default, no builder: the only way to obtain a value from outside
+            # the crate is to decode one (what an application would have to do as well)
+            enc = C.encode(self.cbor(m))
+            arr = ctx.h.fresh("enc")
+            ctx.h.add(*ctx.h.array_literal(arr, enc))
+            ctx.h.add("let %s: %s = cbor_deserialize(&%s).ok().unwrap();" % (v, self.rust, arr))
             return v
         if self.ctor[0] == "default":
             ctx.h.add("let mut %s = <%s>::default();" % (v, self.rust))
